@@ -16,6 +16,21 @@ pub fn with_io<R: 'static>(f: impl FnOnce(&IoH) -> R + 'static) -> R {
     std::mem::forget(h);
     r
 }
+/// io object configured with a frame read rate (timeout, max_timeout, rate) or none
+pub fn with_io_cfg<R: 'static>(rate: Option<(u16, u16, u32)>, f: impl FnOnce(&IoH) -> R + 'static) -> R {
+    let cfg = ntex_io::IoConfig {
+        frame_read_rate: rate.map(|(t, m, r)| ntex_io::FrameReadRate {
+            timeout: ntex_util::time::Seconds(t),
+            max_timeout: ntex_util::time::Seconds(m),
+            rate: r,
+        }),
+        keepalive: ntex_util::time::Seconds(0),
+    };
+    let h = IoH { io: IoRef::model_new_cfg(cfg) };
+    let r = f(&h);
+    std::mem::forget(h);
+    r
+}
 /// run `step(io, i)` for i in 0..n with the executor running between the steps: every task parked
 /// by `spawn` is polled once after each step (Kani: model task table; replay: the ntex runtime)
 pub fn with_io_steps(n: usize, mut step: impl FnMut(&IoH, usize) + 'static) {
@@ -57,6 +72,13 @@ impl IoH {
     /// bytes left behind by failed encode calls
     pub fn torn(&self) -> usize {
         self.io.0.torn.get()
+    }
+    /// timers started so far and the duration of the last one (Kani flavour only)
+    pub fn timer_starts(&self) -> usize {
+        self.io.0.timer_starts.get()
+    }
+    pub fn timer_last(&self) -> u16 {
+        self.io.0.timer_last.get()
     }
     /// graceful or forced shutdown has been requested
     pub fn shutdown_requested(&self) -> bool {
